@@ -1,13 +1,15 @@
 #!/bin/sh
-# usage: tools/try_seed.sh <patch.diff> <Cxx> [<Cyy> ...]   - apply a seeded change to /repo, run quick checks, undo it.
-PATCH="$1"; shift
-cd /repo || exit 2
-if [ -n "$(git status --porcelain --untracked-files=no)" ]; then echo "/repo not clean"; exit 2; fi
-git apply "$PATCH" || { echo "patch does not apply"; exit 2; }
+# usage: tools/try_seed.sh <patch.diff> <Cxx> [<Cyy> ...]
+# Applies a seeded change to a scratch copy of /repo (src + tests/data) and runs the quick checks against it through
+# VERIF_REPO, so that /repo itself (which background runs use) is never touched. The copy is removed afterwards.
+PATCH="$(readlink -f "$1")"; shift
+T=/tmp/seedrun.$$
+mkdir -p $T/tests && rsync -a --exclude '__pycache__' /repo/src $T/ && rsync -a /repo/tests/data $T/tests/ || exit 2
+( cd $T && patch -s -p1 < "$PATCH" ) || { echo "patch does not apply"; rm -rf $T; exit 2; }
 cd /verif
+mkdir -p /tmp/seedrun-evidence.$$ && cp evidence/*.json /tmp/seedrun-evidence.$$/ 2>/dev/null
 for c in "$@"; do
-  VERIF_SEED=${VERIF_SEED:-1} ./check "$c" quick 2>&1 | grep -v "^KNOWN-FINDING" | cut -c1-400
+  VERIF_REPO=$T/src VERIF_SEED=${VERIF_SEED:-1} ./check "$c" quick 2>&1 | grep -v "^KNOWN-FINDING" | cut -c1-400
 done
-git -C /repo checkout -- . 
-git -C /verif checkout -- evidence 2>/dev/null
-echo "[repo restored: $(git -C /repo status --porcelain --untracked-files=no | wc -l) modified files]"
+cp /tmp/seedrun-evidence.$$/*.json evidence/ 2>/dev/null; rm -rf /tmp/seedrun-evidence.$$ $T
+echo "[scratch copy removed; /repo untouched]"
